@@ -44,7 +44,7 @@ func (x *Ctx) destFuncs() map[*ssa.Function]destSig {
 			continue
 		}
 		// a single []byte parameter that is the *input* (exported readers of the Compat kind are unreachable; growBytesSliceCapacity's only slice is its destination)
-		if nb == 1 && fn.Name() != "growBytesSliceCapacity" && len(fn.Params) > 0 && fn.Params[0] == fn.Params[pi] && fn.Signature.Params().Len() == 1 {
+		if nb == 1 && x.canon(fn) != "growBytesSliceCapacity" && len(fn.Params) > 0 && fn.Params[0] == fn.Params[pi] && fn.Signature.Params().Len() == 1 {
 			continue
 		}
 		out[fn] = destSig{pi, ri}
